@@ -6,9 +6,9 @@ directory (L21_REPO / L21_WORK / L21_EVID), so /repo itself and /verif/evidence 
 entry: `git apply` in the worker's worktree, run every claimed check, `git checkout -- .`.  Results go where the
 sequential tools put them: seeded/*/meta.json (detected_by), benign/*/meta.json (alarms_now), benign_small/RESULTS.json.
 
-usage: par_recheck.py <seeded|benign|benign_small|all> [workers=4] [name prefix]   (worktrees are removed at the end)
+usage: par_recheck.py <seeded|benign|benign_small|all> [workers=4] [name prefix (regex, anchored at the start)]   (worktrees are removed at the end)
 """
-import sys, os, subprocess, json, glob, shutil, threading, queue
+import sys, os, re, subprocess, json, glob, shutil, threading, queue
 
 which = sys.argv[1] if len(sys.argv) > 1 else "all"
 K = int(sys.argv[2]) if len(sys.argv) > 2 else 4
@@ -19,7 +19,7 @@ corpora = ["seeded", "benign_small", "benign"] if which == "all" else [which]
 jobs = queue.Queue()
 for c in corpora:
     for p in sorted(glob.glob("/verif/%s/*/patch.diff" % c)):
-        if os.path.basename(os.path.dirname(p)).startswith(PREFIX):
+        if re.match(PREFIX, os.path.basename(os.path.dirname(p))):
             jobs.put((c, os.path.basename(os.path.dirname(p)), p))
 total = jobs.qsize()
 results = {}
